@@ -13,7 +13,8 @@ StrValues == {[t |-> "str", c |-> s] : s \in {x \in Strs(MaxStr) : NoInterp(x)}}
 I(s) == [t |-> "int", s |-> s]
 F(lex) == [t |-> "float", lex |-> lex, num |-> lex]
 Ints == {I("0"), I("7"), I("-3"), I("9223372036854775807"), I("-9223372036854775808")}
-Floats == {F("1.5"), F("-2.25"), F("0.1"), F("5.0"), F("1e-07"), F("1e+22"), F("-0.0"), F("123456789.125"), F("1e16")}
+Floats == {F("1.5"), F("-2.25"), F("0.1"), F("5.0"), F("1e-07"), F("1e+22"), F("-0.0"), F("123456789.125"), F("1e16"),
+           F("-1e-07"), F("-1e+22"), F("5e-324"), F("-2.5e-10"), F("1.7976931348623157e+308"), F("100.0"), F("-7.0")}
 Scalars == Ints \cup Floats \cup {[t |-> "bool", b |-> TRUE], [t |-> "bool", b |-> FALSE], [t |-> "null"]} \cup StrValues
 \* one representative per kind for the elements of compound values
 Reps == {I("7"), I("-3"), F("1.5"), F("-2.25"), [t |-> "bool", b |-> TRUE], [t |-> "null"],
